@@ -7,6 +7,7 @@ package main
 
 import (
 	"fmt"
+	"strings"
 
 	"github.com/WICG/webpackage/go/signedexchange/zverif/mc"
 	"github.com/WICG/webpackage/go/signedexchange/zverif/refbundle"
@@ -49,11 +50,60 @@ func c04GenMany(c *mc.Ctx) *c04Case {
 	return cs
 }
 
+// c04GenVariantLimit: one b1 URL whose complete variant set sits at the writer's limit of 10000 possible keys
+// (100x100 and 10x10x100), just below it (101x99 = 9999); one tiny
+// representation per key, inserted in row-major or reverse order.
+func c04GenVariantLimit(c *mc.Ctx) *c04Case {
+	cs := &c04Case{Ver: "b1", Primary: &c04PrimaryPool[0]}
+	shapes := [][]int{{100, 100}, {101, 99}, {10, 10, 100}}
+	sh := shapes[c.Free(len(shapes), "axes")]
+	order := c.Free(2, "insertion order: row-major / reversed")
+	names := []string{"Accept-Language", "Accept-Encoding", "Accept-Charset"}
+	var axes [][]string
+	var parts []string
+	for a, n := range sh {
+		vals := make([]string, n)
+		for i := range vals {
+			vals[i] = fmt.Sprintf("v%d", i)
+		}
+		axes = append(axes, vals)
+		parts = append(parts, names[a]+";"+strings.Join(vals, ";"))
+	}
+	vv := strings.Join(parts, ", ")
+	var keys []string
+	var rec func(a int, prefix []string)
+	rec = func(a int, prefix []string) {
+		if a == len(axes) {
+			keys = append(keys, strings.Join(prefix, ";"))
+			return
+		}
+		for _, v := range axes[a] {
+			rec(a+1, append(append([]string{}, prefix...), v))
+		}
+	}
+	rec(0, nil)
+	for i := range keys {
+		k := i
+		if order == 1 {
+			k = len(keys) - 1 - i
+		}
+		hdr := []refbundle.LHeader{{Name: "Content-Type", Values: []string{"text/plain"}}, {Name: "Variants", Values: []string{vv}}, {Name: "Variant-Key", Values: []string{keys[k]}}}
+		cs.Exs = append(cs.Exs, c04Ex{URL: "https://a.test/v", Status: 200, Hdr: hdr, Body: []byte{byte(k), byte(k >> 8)}})
+	}
+	cs.Big = true
+	cs.Desc = fmt.Sprintf("b1 variant set at the limit axes=%v order=%d", sh, order)
+	return cs
+}
+
 func init() {
 	p4 := props["C04"]
 	p4.Harnesses = append(p4.Harnesses, &mc.Harness{Name: "C04/many", Run: func(c *mc.Ctx) { c04Check(c, "C04/many", c04GenMany(c)) }})
 	p4.Rule += " C04/many: b1/b2 x exchange count {4,22,23,24,25,255,256,257; thorough also 65535, 65536} (the head-size boundaries of the index map and the responses array) x body length {1,0,24} x insertion in ascending / descending URL order, URLs of varying length."
+	p4.Harnesses = append(p4.Harnesses, &mc.Harness{Name: "C04/variant-limit", Run: func(c *mc.Ctx) { c04Check(c, "C04/variant-limit", c04GenVariantLimit(c)) }})
+	p4.Rule += " C04/variant-limit: one b1 URL with a complete variant set of 100x100, 10x10x100 and 101x99 keys (at and just below the writer's limit of 10000), row-major and reversed insertion."
 	p3 := props["C03"]
+	p3.Harnesses = append(p3.Harnesses, &mc.Harness{Name: "C03/variant-limit", Run: func(c *mc.Ctx) { c03Check(c, "C03/variant-limit", c04GenVariantLimit(c)) }})
+	p3.Rule += " C03/variant-limit: the same generator as C04/variant-limit."
 	p3.Harnesses = append(p3.Harnesses, &mc.Harness{Name: "C03/many", Run: func(c *mc.Ctx) { c03Check(c, "C03/many", c04GenMany(c)) }})
 	p3.Rule += " C03/many: the same generator as C04/many (exchange counts around 24, 256 and, thorough, 65536)."
 }
